@@ -96,6 +96,7 @@ impl<'a> Cx<'a> {
                 syn::Lit::Int(i) => lit_int(i).ok().and_then(|x| x.1).map(Ty::Int),
                 syn::Lit::Bool(_) => Some(Ty::Bool),
                 syn::Lit::Byte(_) => Some(Ty::Int(IntTy::U8)),
+                syn::Lit::ByteStr(_) => Some(Ty::Bytes),
                 _ => None,
             },
             E::Paren(p) => self.ty_of(&p.expr),
@@ -171,7 +172,11 @@ impl<'a> Cx<'a> {
                     "checked_mul" | "checked_add" | "checked_sub" => rt.map(|t| Ty::Opt(Box::new(t))),
                     "to_bits" => Some(U64),
                     "len" | "capacity" | "count" => Some(Ty::Int(IntTy::Usize)),
-                    "is_empty" => Some(Ty::Bool),
+                    "is_empty" | "is_some" | "is_none" => Some(Ty::Bool),
+                    "to_digit" => Some(Ty::Opt(Box::new(Ty::Int(IntTy::U32)))),
+                    "first" => Some(Ty::Opt(Box::new(Ty::Int(IntTy::U8)))),
+                    "get" if rt == Some(Ty::Bytes) => Some(Ty::Opt(Box::new(Ty::Int(IntTy::U8)))),
+                    "map_or" => m.args.first().and_then(|a| self.ty_of(a)),
                     "pow" | "clone" => rt,
                     "get" => Some(Ty::Opt(Box::new(U64))),
                     "cmp" => Some(Ty::Ordering),
@@ -227,6 +232,13 @@ impl<'a> Cx<'a> {
                         Some(Ty::Slice)
                     } else {
                         Some(U64)
+                    }
+                }
+                Ty::Bytes => {
+                    if matches!(&*ix.index, E::Range(_)) {
+                        Some(Ty::Bytes)
+                    } else {
+                        Some(Ty::Int(IntTy::U8))
                     }
                 }
                 _ => None,
@@ -315,6 +327,11 @@ impl<'a> Cx<'a> {
                 }
                 syn::Lit::Bool(b) => Ok(Val::new(if b.value { "true" } else { "false" }, Ty::Bool)),
                 syn::Lit::Byte(b) => Ok(Val::new(b.value().to_string(), Ty::Int(IntTy::U8))),
+                // a byte string is the list of its bytes (rule 24)
+                syn::Lit::ByteStr(b) => {
+                    let v: Vec<String> = b.value().iter().map(|x| x.to_string()).collect();
+                    Ok(Val::new(format!("[{}]", v.join("; ")), Ty::Bytes))
+                }
                 _ => err(l.span(), "unsupported literal"),
             },
             E::Paren(p) => self.lower_expr(&p.expr, expected),
@@ -410,7 +427,9 @@ impl<'a> Cx<'a> {
                 Ok(Val::new(format!("({})", ts.join(", ")), Ty::Tuple(tys)))
             }
             E::Struct(s) => self.lower_struct(s),
-            E::Index(ix) if matches!(self.ty_of(&ix.expr), Some(Ty::Vec) | Some(Ty::Slice) | Some(Ty::RView)) => self.lower_index(ix),
+            E::Index(ix) if matches!(self.ty_of(&ix.expr), Some(Ty::Vec) | Some(Ty::Slice) | Some(Ty::RView) | Some(Ty::Bytes)) => {
+                self.lower_index(ix)
+            }
             E::Index(ix) => {
                 let base = self.lower_expr(&ix.expr, None)?;
                 let i = self.lower_expr(&ix.index, Some(&Ty::Int(IntTy::Usize)))?;
@@ -633,6 +652,11 @@ impl<'a> Cx<'a> {
                 }
                 let v = self.lower_expr(&u.expr, expected)?;
                 match v.ty {
+                    // `-x` on the float type `F` flips the sign bit (model/FloatOps.v)
+                    Ty::Float => {
+                        self.needs.f = true;
+                        Ok(Val::new(format!("(f_neg f {})", v.t), Ty::Float))
+                    }
                     Ty::Int(t) if t.signed() => Ok(self.bind_op(format!("{}_neg b {}", t.name(), v.t), v.ty)),
                     t => err(u.span(), format!("unary `-` on {}", t)),
                 }
